@@ -315,11 +315,30 @@ namespace ip {
 		abort_recv_handlers();
 		abort_send_handlers();
 
-		if (m_connect_handler)
+		abort_connect();
+	}
+
+	// abort an outstanding connect: either it is waiting for the SYN+ACK, or
+	// it is going to be refused once the connect timer fires
+	void tcp::socket::abort_connect()
+	{
+		m_connect_timer.cancel();
+
+		if (!m_connect_handler) return;
+
+		post(m_io_service, aux::make_malloc(std::bind(std::move(m_connect_handler)
+			, boost::system::error_code(error::operation_aborted))));
+		m_connect_handler = nullptr;
+
+		// the connection never came into being. Forget the channel, and detach
+		// from whatever is still on its way to us (the SYN+ACK, or data from a
+		// peer that accepts in the meantime): it must not reach a later
+		// connection of this socket
+		m_channel.reset();
+		if (m_forwarder)
 		{
-			post(m_io_service, aux::make_malloc(std::bind(std::move(m_connect_handler)
-				, boost::system::error_code(error::operation_aborted))));
-			m_connect_handler = nullptr;
+			m_forwarder->reset();
+			m_forwarder = std::make_shared<aux::sink_forwarder>(this);
 		}
 	}
 
@@ -362,7 +381,9 @@ namespace ip {
 		if (!m_open) open(target.protocol());
 
 		assert(h);
-		assert(!m_connect_handler);
+
+		// a connect that is still outstanding is superseded by this one
+		abort_connect();
 
 		// find remote socket
 		boost::system::error_code ec;
@@ -404,7 +425,11 @@ namespace ip {
 			m_channel.reset();
 			// TODO: ask the policy object what the round-trip to this endpoint is
 			m_connect_timer.expires_after(chrono::milliseconds(50));
-			m_connect_timer.async_wait(aux::make_malloc(std::bind(std::move(m_connect_handler), ec)));
+			// the connect fails with ec after the delay, unless it is cancelled
+			// before that (the timer then reports operation_aborted)
+			m_connect_timer.async_wait(aux::make_malloc(
+				[h = std::move(m_connect_handler), ec](boost::system::error_code const& e) mutable
+				{ h(e ? e : ec); }));
 			m_connect_handler = nullptr;
 			return;
 		}
